@@ -9,11 +9,18 @@
    (tickets); an ack forwards position i to the source connector unless the fail latch is set; a
    nack asks the DLQ: tolerated -> DLQ write, then position i is acknowledged; refused -> the fail
    latch is set and nothing is acknowledged any more.
+   A forward to the source connector (Source.Ack) or a dead-letter write can fail (the SrcFailAt-th forward /
+   the DlqFailAt-th write of the history): the fail latch is set and nothing is acknowledged any more.
    Properties: NoEarlyAck, AckPrefix (what the source hears is 1..k in order), DlqOnce,
-   DlqBeforeAck, FailLatch (nothing is acknowledged after a refusal).                            *)
-EXTENDS Naturals, Sequences, FiniteSets, TLC
+   DlqBeforeAck, FailLatch (nothing is acknowledged after a refusal or a failure).
+   With Emit = TRUE every complete history is printed with the expected forwards and dead-letter writes; the
+   conformance harness replays it on the REAL FanoutNode / SourceAckerNode / DLQHandlerNode.       *)
+EXTENDS Naturals, Sequences, FiniteSets, TLC, Json
 
-CONSTANTS N, M, Tolerate   \* Tolerate: number of nacks the DLQ window tolerates (abstract policy)
+CONSTANTS N, M,
+          Tolerates,   \* set of values for Tolerate: number of nacks the DLQ window tolerates (abstract policy)
+          AllowFail,   \* TRUE: a forward to the source / a dead-letter write may fail
+          Emit
 
 Idx == 1..N
 Br == 1..M
@@ -23,12 +30,18 @@ VARIABLES ans,      \* ans[b]: how many records branch b has answered (in order)
           rem,      \* remainingAcks of the original message i
           status,   \* "open" | "acked" | "nacked"   (Message status; ack / nack are idempotent)
           head,     \* next ticket to be served
-          fail, srcAcks, dlq, nacks
-vars == <<ans, out, rem, status, head, fail, srcAcks, dlq, nacks>>
+          fail, srcAcks, dlq, nacks,
+          tol, srcFailAt, dlqFailAt,   \* chosen initially: the policy and which forward / write fails (0 = none)
+          srcCalls, dlqCalls,          \* forwards / writes attempted so far
+          script                       \* history: the branch answers <<b, isAck>> in the order they are given
+vars == <<ans, out, rem, status, head, fail, srcAcks, dlq, nacks, tol, srcFailAt, dlqFailAt, srcCalls, dlqCalls, script>>
 
 Init == /\ ans = [b \in Br |-> 0] /\ out = [b \in Br |-> [i \in Idx |-> "-"]]
         /\ rem = [i \in Idx |-> M] /\ status = [i \in Idx |-> "open"] /\ head = 1
         /\ fail = FALSE /\ srcAcks = <<>> /\ dlq = <<>> /\ nacks = 0
+        /\ tol \in Tolerates
+        /\ srcFailAt \in (IF AllowFail THEN 0..N ELSE {0}) /\ dlqFailAt \in (IF AllowFail THEN 0..2 ELSE {0})
+        /\ srcCalls = 0 /\ dlqCalls = 0 /\ script = <<>>
 
 BranchAnswer(b, isAck) ==
   /\ ans[b] < N
@@ -40,20 +53,28 @@ BranchAnswer(b, isAck) ==
                /\ status' = IF rem[i] = 1 /\ status[i] = "open" THEN [status EXCEPT ![i] = "acked"] ELSE status
           ELSE /\ rem' = rem
                /\ status' = IF status[i] = "open" THEN [status EXCEPT ![i] = "nacked"] ELSE status
-  /\ UNCHANGED <<head, fail, srcAcks, dlq, nacks>>
+  /\ script' = Append(script, <<b, isAck>>)
+  /\ UNCHANGED <<head, fail, srcAcks, dlq, nacks, tol, srcFailAt, dlqFailAt, srcCalls, dlqCalls>>
+
+\* forward position `head` to the source connector: the srcFailAt-th forward fails
+Forward(sa, f, sc) == IF sc + 1 = srcFailAt THEN <<sa, TRUE, sc + 1>> ELSE <<Append(sa, head), f, sc + 1>>
 
 \* the source acker's handler of record `head` (its ticket is at the front)
 Serve ==
   /\ head <= N /\ status[head] # "open"
-  /\ IF fail THEN UNCHANGED <<fail, srcAcks, dlq, nacks>>
+  /\ IF fail THEN UNCHANGED <<fail, srcAcks, dlq, nacks, srcCalls, dlqCalls>>
      ELSE IF status[head] = "acked"
-       THEN srcAcks' = Append(srcAcks, head) /\ UNCHANGED <<fail, dlq, nacks>>
-     ELSE IF nacks < Tolerate
-       THEN /\ dlq' = Append(dlq, head) /\ srcAcks' = Append(srcAcks, head)
-            /\ nacks' = nacks + 1 /\ UNCHANGED fail
-       ELSE fail' = TRUE /\ UNCHANGED <<srcAcks, dlq, nacks>>
+       THEN LET r == Forward(srcAcks, fail, srcCalls) IN
+            srcAcks' = r[1] /\ fail' = r[2] /\ srcCalls' = r[3] /\ UNCHANGED <<dlq, nacks, dlqCalls>>
+     ELSE IF nacks < tol
+       THEN IF dlqCalls + 1 = dlqFailAt
+              THEN fail' = TRUE /\ dlqCalls' = dlqCalls + 1 /\ nacks' = nacks + 1 /\ UNCHANGED <<srcAcks, dlq, srcCalls>>
+              ELSE LET r == Forward(srcAcks, fail, srcCalls) IN
+                   /\ dlq' = Append(dlq, head) /\ dlqCalls' = dlqCalls + 1 /\ nacks' = nacks + 1
+                   /\ srcAcks' = r[1] /\ fail' = r[2] /\ srcCalls' = r[3]
+       ELSE fail' = TRUE /\ UNCHANGED <<srcAcks, dlq, nacks, srcCalls, dlqCalls>>
   /\ head' = head + 1
-  /\ UNCHANGED <<ans, out, rem, status>>
+  /\ UNCHANGED <<ans, out, rem, status, tol, srcFailAt, dlqFailAt, script>>
 
 Next == Serve \/ \E b \in Br, a \in BOOLEAN : BranchAnswer(b, a)
 Spec == Init /\ [][Next]_vars /\ WF_vars(Serve)
@@ -66,4 +87,9 @@ DlqOnlyRejected == \A i \in Rng(dlq) : \E b \in Br : out[b][i] = "nack"
 FailLatch == fail => Len(srcAcks) < head - 1
 AllAnswered == \A b \in Br : ans[b] = N
 Drained == <>(AllAnswered => (head = N + 1))
+
+Case == [n |-> N, m |-> M, tol |-> tol, srcFailAt |-> srcFailAt, dlqFailAt |-> dlqFailAt, answers |-> script,
+         srcAcks |-> srcAcks, dlq |-> dlq, fail |-> fail]
+EmitCase == (Emit /\ AllAnswered /\ head = N + 1) => PrintT("CASE " \o ToJson(Case))
+View == <<ans, out, rem, status, head, fail, srcAcks, dlq, nacks, tol, srcFailAt, dlqFailAt, srcCalls, dlqCalls>>
 =============================================================================
